@@ -54,6 +54,30 @@ class MustFlow(object):
             facts = self.stmt(s, facts)
         return facts
 
+    def cond_facts(self, test):
+        """(facts when the test is true, facts when it is false).  What the rule's own `cond` does not recognise as a
+        whole is decomposed: `not t` swaps, `a or b` false means both false (true: what both give), `a and b` true means
+        both true (false: what both give) - so a recognised test keeps its meaning inside a redundant disjunct or
+        conjunct."""
+        ft, ff = self.cond(test)
+        if ft or ff:
+            return frozenset(ft), frozenset(ff)
+        if isinstance(test, ast.UnaryOp) and isinstance(test.op, ast.Not):
+            t, f = self.cond_facts(test.operand)
+            return f, t
+        if isinstance(test, ast.BoolOp):
+            parts = [self.cond_facts(v) for v in test.values]
+            ts = [p[0] for p in parts]
+            fs = [p[1] for p in parts]
+            if isinstance(test.op, ast.Or):
+                t = frozenset.intersection(*ts) if ts else frozenset()
+                f = frozenset().union(*fs)
+            else:
+                t = frozenset().union(*ts)
+                f = frozenset.intersection(*fs) if fs else frozenset()
+            return t, f
+        return frozenset(), frozenset()
+
     def _loopctl(self):
         return {'continue': [], 'break': []}
 
@@ -76,7 +100,7 @@ class MustFlow(object):
             self.exits.append(('raise', s, f2))
             return None
         if isinstance(s, ast.If):
-            ft, ff = self.cond(s.test)
+            ft, ff = self.cond_facts(s.test)
             a = self.block(s.body, facts | ft)
             b = self.block(s.orelse, facts | ff)
             if a is None:
